@@ -85,7 +85,9 @@ First(s0, ev, ln) ==
       dcbs  == ToSet(ev.drain_cbs)
       need  == SpecCbs(qlo) \ {"ping"}
       pingD == cf.wake = "ping" /\ woke
-      gone  == Cardinality(F) + Cardinality(src \cap SelfGone)
+      \* (timers bundled in one forwarding composite source are not sources of their own: firing frees no slot)
+      bundle == "bundle" \in DOMAIN cf /\ cf.bundle = 1
+      gone  == (IF bundle THEN 0 ELSE Cardinality(F)) + Cardinality(src \cap SelfGone)
       cl ==
         If(ev.r # "ok", "dispatch_failed")
         \cup If(ev.end_us < LB - EpsLo,
@@ -130,7 +132,8 @@ Second(s0, ev, ln) ==
         \cup If(F \cap s0.fired # {}, "timer_fired_twice")
         \cup FiredClauses(ev.fired, tm, "second_")
         \cup If(Len(ev.cbs) # 0, "second_callbacks")
-        \cup If(ev.occ_a # ev.occ_b - Cardinality(F) \/ ev.heap_a # ev.heap_b - Cardinality(F), "second_removal_mismatch")
+        \cup If(ev.occ_a # ev.occ_b - (IF "bundle" \in DOMAIN cf /\ cf.bundle = 1 THEN 0 ELSE Cardinality(F))
+                \/ ev.heap_a # ev.heap_b - Cardinality(F), "second_removal_mismatch")
         \cup If(ev.waits # 1 \/ ev.wait_us # cf.s2_us, "Mismatch_second_wait_arg")
   IN [s0 EXCEPT !.fired = @ \cup F, !.viol = @ \cup {Vi(x, ln, s0.scn) : x \in cl}]
 
